@@ -145,7 +145,7 @@ class Prop:
     shard = 8
     rule = ("every ordered forest shape with <= N nodes (quick N=4, thorough N=5) with every style of the table, the default, '', 'list', 4 custom "
             "4-/6-tuples incl. astral-plane code points and 6 malformed styles; every (N+1)-node shape with a rotating third of the styles; "
-            "plus seeded random deep/wide trees of 6..24 nodes (quick 40, thorough 160); every 5th case gives all nodes ONE data object "
+            "plus seeded random deep/wide trees of 6..24 nodes (quick 40, thorough 300); every 5th case gives all nodes ONE data object "
             "(siblings equal but not identical); per (tree, style): Tree.format_iter "
             "for title in {default, False, True, text, ''}, Node.format_iter for EVERY node as start with add_self on/off, "
             "format(join=j) for the tree and every node; repr as format string, callable or the class default; plain and typed trees; "
@@ -156,7 +156,7 @@ class Prop:
         "is-last-sibling is positional in the model (no following sibling); PROVED equal to the identity tests of the relationship-query model (C10: q_is_last of the located context of every member of get_parent_list(), in that order; q_is_last / q_has_children of the node) for forests with unique node identities (theorem C16_flags_are_the_identity_tests_of_the_code); uniqueness of identities is C01",
         "the rendering of a node (repr string/callable) is an input of the model; the harness computes it independently of format()",
         "tree names need no escaping in repr(): title line is Cls<'name'>",
-        "to keep case terms small, Tree.format_iter(title=default/False) and Tree.format(join=) are compared with the model as full text, the other observations (titles True/text/'', every start node, system root) as (line count, 61-bit polynomial hash) computed by the same formula on both sides; the oracle always sees the full lines",
+        "to keep case terms small, Tree.format_iter(title=default/False) and Tree.format(join=) are compared with the model as full text, the other observations (titles True/text/'', every start node, system root) as (line count, 61-bit polynomial hash) computed by the same formula on both sides (trees of <= 3 nodes: everything as full text); the oracle always sees the full lines",
     ]
     manifest = dict(
         text=("Machine-checked theorems (Coq 8.16, no axioms): for ALL forests, start nodes, add_self, title settings and every 4-/6-segment "
@@ -201,7 +201,7 @@ class Prop:
             sub = [everything[(j + 3 * k) % len(everything)] for k in range(len(everything) // 3 + 1)]
             yield self._desc(shape, sub, i, typed=(i % 7 == 3))
             i += 1
-        nrand = 40 if tier == "quick" else 160
+        nrand = 40 if tier == "quick" else 300
         for _ in range(nrand):
             n = rng.randint(6, 24)
             shape = H.random_shape(rng, n, deep=rng.choice([0.3, 0.6, 0.9]))
@@ -273,13 +273,15 @@ class Prop:
                 break
 
         # what is compared with the model: full text for title default/False and the joined text, hashes for the rest
-        obs = [[tr[:2] + [hlines(x) for x in tr[2:]], [[hlines(a), hlines(b)] for a, b in nd], tj, [[htext(x), htext(y)] for x, y in nj],
-                [hlines(x) for x in sr]] for tr, nd, tj, nj, sr in obs]
+        full = len(nodes) <= 3
+        hl, ht = ((lambda x: x), (lambda x: x)) if full else (hlines, htext)
+        obs = [[tr[:2] + [hl(x) for x in tr[2:]], [[hl(a), hl(b)] for a, b in nd], tj, [[ht(x), ht(y)] for x, y in nj],
+                [hl(x) for x in sr]] for tr, nd, tj, nj, sr in obs]
         rends = H.coq_list(f"({H.nid(n)}, {H.coq_text(rend[id(n)])})" for n in nodes)
         cls = "TypedTree" if typed else "Tree"
         coq = (f"(mk16 {H.coq_forest(tree._root, U)} {rends} {H.coq_text(cls)} {H.coq_text(desc['name'])} "
                f"{H.coq_list(coq_style(s) for s in desc['styles'])} {H.coq_text(ttext)} {H.coq_text(join)} "
-               f"{H.coq_list(str(H.nid(n)) for n in snodes)} {H.coq_list(str(H.nid(n)) for n in jnodes)})")
+               f"{H.coq_list(str(H.nid(n)) for n in snodes)} {H.coq_list(str(H.nid(n)) for n in jnodes)} {H.coq_bool(full)})")
         depth = B.nodes_depth(desc["nodes"])
         max_sibs = max([len(p._children or []) for p in [tree._root] + nodes])
         return Case(desc=desc, coq_input=coq, impl_obs=obs, oracle_fail=fail,
